@@ -66,13 +66,30 @@ def showOutcome : Outcome → String
   | .internal t => s!"internal {t}"
   | .fuel => "FUEL"
 
-partial def go (h o : IO.FS.Stream) : IO Unit := do
+/-- the converted stylesheet snippet table is cached per distinct table (the model's `convertSnippets` is pure; this only
+    saves time) -/
+def run (cache : IO.Ref (List (List (T.Str × T.Str) × Except CA.Err (Array CA.Snippet)))) (a : List Nat) (u : RawConfig) (g : GlobalConfig) : IO Outcome := do
+  if typeOf u == T.lit "stylesheet" then
+    let tbl := mergedSnippets u g
+    let c ← cache.get
+    let sn ← (match c.find? (fun e => e.1 == tbl) with
+      | some (_, r) => pure r
+      | none => do
+        let r := CA.convertSnippets tbl
+        cache.set ((tbl, r) :: c.take 8)
+        pure r)
+    match sn with
+    | .error e => return ofCss (.error e)
+    | .ok arr => return ofCss (CA.expandStylesheetPre a arr (stylesheetOptions u g))
+  else return expand a u g
+
+partial def go (cache : IO.Ref (List (List (T.Str × T.Str) × Except CA.Err (Array CA.Snippet)))) (h o : IO.FS.Stream) : IO Unit := do
   let line ← h.getLine
   if line.isEmpty then return ()
   match line.trimAsciiEnd.toString.splitOn ";" with
-  | [a, c] => o.putStrLn (showOutcome (expand (decode a) (parseSpec c) []))
-  | [a, c, g] => o.putStrLn (showOutcome (expand (decode a) (parseSpec c) (parseGlobal g)))
+  | [a, c] => o.putStrLn (showOutcome (← run cache (decode a) (parseSpec c) []))
+  | [a, c, g] => o.putStrLn (showOutcome (← run cache (decode a) (parseSpec c) (parseGlobal g)))
   | _ => o.putStrLn "BADLINE"
-  go h o
-def main : IO Unit := do go (← IO.getStdin) (← IO.getStdout)
+  go cache h o
+def main : IO Unit := do go (← IO.mkRef []) (← IO.getStdin) (← IO.getStdout)
 end Drv.ExpandG
